@@ -151,8 +151,14 @@ def grammar():
     links.append(L([('BB', 0), ('BB', 1)], inter=[bond(0, 1, '0.5')], label='plain bond, other length'))
     links.append(L([('BB', 0), ('SC1', 0)], removed=[('bonds', (0, 1), [])], label='!bonds BB SC1'))
     links.append(L([('BB', 0), ('SC1', 0)], removed=[('bonds', (0, 1), ['1', '0.99'])], label='!bonds with non-matching parameters'))
-    links.append(L([('BB', 0), ('BB', 1)], removed=[('bonds', (0, 1), [])], label='!bonds BB +BB'))
+    links.append(L([('BB', 0), ('BB', 1)], removed=[('bonds', (0, 1), [])], label='!bonds BB +BB (atoms not bonded)'))
+    links.append(L([('BB', 0), ('BB', 1)], removed=[('bonds', (0, 1), [])], edges=[(0, 1)], label='!bonds BB +BB'))
     links.append(L([('BB', 0), ('BB', 1)], inter=[bond(0, 1)], replace={0: {'charge': 1}}, label='replace attribute'))
+    # interaction metadata: conditional / grouped bond, and removals that name a version
+    links.append(L([('BB', 0), ('BB', 1)], inter=[bond(0, 1, '0.36', {'ifdef': 'FLEXIBLE', 'group': 'Backbone bonds'})], label='bond under ifdef + group'))
+    links.append(L([('BB', 0), ('BB', 1)], inter=[bond(0, 1, '0.37', {'comment': 'stiff'})], label='bond with comment'))
+    links.append(L([('BB', 0), ('BB', 1)], removed=[('bonds', (0, 1), [], {'version': 2})], edges=[(0, 1)], label='!bonds version 2 only'))
+    links.append(L([('BB', 0), ('BB', 1)], removed=[('bonds', (0, 1), [], {'ifdef': 'FLEXIBLE'})], edges=[(0, 1)], label='!bonds under ifdef only'))
     links.append(L([('BB', 0), ('SC1', 0, {'resname': 'GLY'})], replace={1: {'atomname': None}}, label='delete SC1 of GLY'))
     return links
 
@@ -180,7 +186,7 @@ def render(link):
                 atoms = ' '.join(keys[i] for i in item[1])
                 params = ' '.join(render_param(p, keys) for p in item[2])
                 meta = (' ' + json_dumps(item[3])) if len(item) > 3 and item[3] else ''
-                lines.append('%s -- %s%s' % (atoms, params, meta) if params else '%s%s' % (atoms, meta))
+                lines.append('%s -- %s%s' % (atoms, params, meta) if (params or meta) else atoms)
     if link['edges']:
         lines.append('[ edges ]')
         lines.extend('%s %s' % (keys[a], keys[b]) for a, b in link['edges'])
@@ -365,10 +371,13 @@ def apply_links(state, links):
                     to_delete.append(combo[idx])
                 else:
                     state['nodes'][combo[idx]].update(repl)
-            for typ, atoms, params in link['removed']:
+            for removal in link['removed']:
+                typ, atoms, params = removal[:3]
+                want_meta = removal[3] if len(removal) > 3 else {}
                 target = tuple(combo[i] for i in atoms)
                 for pos, item in enumerate(state['inter']):
-                    if item[0] == typ and item[1] == target and (not params or [str(p) for p in item[2]] == [str(p) for p in params]):
+                    if item[0] == typ and item[1] == target and (not params or [str(p) for p in item[2]] == [str(p) for p in params]) \
+                            and all(item[4].get(k) == v for k, v in want_meta.items()):
                         del state['inter'][pos]
                         break
             for typ, atoms, params, meta in link['inter']:
@@ -378,9 +387,10 @@ def apply_links(state, links):
                 for item in state['inter']:
                     if item[0] == typ and item[1] == target and item[3] == version:
                         item[2] = values
+                        item[4] = dict(meta)      # the later link states the whole interaction, metadata included
                         break
                 else:
-                    state['inter'].append([typ, target, values, version])
+                    state['inter'].append([typ, target, values, version, dict(meta)])
         for key in to_delete:
             if key in state['nodes']:
                 del state['nodes'][key]
@@ -394,20 +404,20 @@ def state_of(mol):
         'nodes': {k: {a: (tuple(float(x) for x in v) if a == 'position' else v) for a, v in d.items()} for k, d in mol.nodes(data=True)},
         'edges': {frozenset(e) for e in mol.edges},
         'meta': dict(mol.meta),
-        'inter': [[t, tuple(i.atoms), list(i.parameters), i.meta.get('version', 0)] for t, lst in mol.interactions.items() for i in lst],
+        'inter': [[t, tuple(i.atoms), list(i.parameters), i.meta.get('version', 0), dict(i.meta)] for t, lst in mol.interactions.items() for i in lst],
     }
 
 
 def norm_inter(items):
     out = []
-    for typ, atoms, params, version in items:
+    for typ, atoms, params, version, meta in items:
         vals = []
         for p in params:
             try:
                 vals.append(round(float(p), 6))
             except (TypeError, ValueError):
                 vals.append(str(p))
-        out.append((typ, tuple(atoms), tuple(vals), version))
+        out.append((typ, tuple(atoms), tuple(vals), version, tuple(sorted((str(k), str(v)) for k, v in meta.items()))))
     return sorted(out, key=repr)
 
 
@@ -452,6 +462,8 @@ def check(nres, numbering, connectivity, link_idxs, acc, sample=False):
                 sig = 'c05:unjustified-interaction'
             elif missing and not extra:
                 sig = 'c05:missing-interaction'
+            elif {(i[0], i[1], i[2], i[3]) for i in extra} == {(i[0], i[1], i[2], i[3]) for i in missing}:
+                sig = 'c05:wrong-metadata'
             elif {(i[0], i[1], i[3]) for i in extra} == {(i[0], i[1], i[3]) for i in missing}:
                 sig = 'c05:wrong-parameters'
             else:
